@@ -408,8 +408,8 @@ theorem wrapped_update_unusable (s : St) (c : Nat) (hd : Hdr) (ibc : Bool) :
 -- 8. first_channel_only
 -- ================================================================================================
 
-theorem chanAck_chanOf (s : St) (ch : Nat) (ibc : Bool) (r x : Nat) (h : lookup s.chanOf r = some x) :
-    lookup (chanAck s ch ibc).1.chanOf r = some x := by
+theorem chanAck_chanOf (s : St) (ch : Nat) (w : ChanRoute) (ibc : Bool) (r x : Nat) (h : lookup s.chanOf r = some x) :
+    lookup (chanAck s ch w ibc).1.chanOf r = some x := by
   unfold chanAck
   repeat' split
   all_goals first
@@ -434,7 +434,7 @@ theorem step_chanOf_stable (s : St) (op : Op) (r x : Nat) (h : lookup s.chanOf r
     simp only [step, chanInit]
     repeat' split
     all_goals exact h
-  | chanAck ch ibc => simp only [step]; exact chanAck_chanOf s ch ibc r x h
+  | chanAck ch w ibc => simp only [step]; exact chanAck_chanOf s ch w ibc r x h
 
 /-- **first_channel_only** — the canonical channel of a rollapp, once set, is never changed by any op
     sequence; it is set only by a channel-open-ack on a transfer channel over the rollapp's canonical
@@ -447,9 +447,24 @@ theorem first_channel_only (s : St) (r x : Nat) (h : lookup s.chanOf r = some x)
     simp only [run, List.foldl_cons]
     exact ih _ (step_chanOf_stable s op r x h)
 
-theorem first_channel_only_set {s : St} {ch : Nat} {ibc : Bool} {r : Nat} (h0 : lookup s.chanOf r = none)
-    (h1 : lookup (chanAck s ch ibc).1.chanOf r = some ch) :
-    ∃ c, s.chans.find? (·.id == ch) = some c ∧ lookup s.c2r c.client = some r := by
+/-- by the two routes the decorator does not look at, `Rollapp.ChannelId` is never written -/
+theorem chanAck_unseen_chanOf (s : St) (ch : Nat) (w : ChanRoute) (ibc : Bool) (hw : w ≠ .ack) :
+    (chanAck s ch w ibc).1.chanOf = s.chanOf := by
+  unfold chanAck
+  cases w with
+  | ack => exact absurd rfl hw
+  | nestedAck => cases s.chans.find? (·.id == ch) <;> cases ibc <;> rfl
+  | confirm => cases s.chans.find? (·.id == ch) <;> cases ibc <;> rfl
+
+theorem first_channel_only_set {s : St} {ch : Nat} {w : ChanRoute} {ibc : Bool} {r : Nat} (h0 : lookup s.chanOf r = none)
+    (h1 : lookup (chanAck s ch w ibc).1.chanOf r = some ch) :
+    w = .ack ∧ ∃ c, s.chans.find? (·.id == ch) = some c ∧ lookup s.c2r c.client = some r := by
+  have hw : w = .ack := by
+    by_cases hw : w = .ack
+    · exact hw
+    · rw [chanAck_unseen_chanOf s ch w ibc hw, h0] at h1; exact absurd h1 (by simp)
+  subst hw
+  refine ⟨rfl, ?_⟩
   unfold chanAck at h1
   cases hc : s.chans.find? (·.id == ch) with
   | none => simp [hc, h0] at h1
@@ -476,15 +491,15 @@ theorem first_channel_only_set {s : St} {ch : Nat} {ibc : Bool} {r : Nat} (h0 : 
         · exact absurd key (by simp)
 
 /- Full clause: "only the first transfer channel *opened* over the canonical client becomes canonical":
-     lookup (chanAck s ch ibc).1.chanOf r = some ch (newly) → the channel ch is open afterwards
+     lookup (chanAck s ch w ibc).1.chanOf r = some ch (newly) → the channel ch is open afterwards
    FALSE of the current code: the ante handler writes the channel id before the handshake proof is checked,
    and the write is kept when the message fails. -/
 
 /-- **first_channel_only_partial** — when the handshake proof verifies, the channel that became canonical is open -/
 theorem first_channel_only_partial {s : St} {ch : Nat} {r : Nat} (h0 : lookup s.chanOf r = none)
-    (h1 : lookup (chanAck s ch true).1.chanOf r = some ch) :
-    ∃ c ∈ (chanAck s ch true).1.chans, c.id = ch ∧ c.isOpen = true := by
-  obtain ⟨c, hc, hr⟩ := first_channel_only_set h0 h1
+    (h1 : lookup (chanAck s ch .ack true).1.chanOf r = some ch) :
+    ∃ c ∈ (chanAck s ch .ack true).1.chans, c.id = ch ∧ c.isOpen = true := by
+  obtain ⟨_, c, hc, hr⟩ := first_channel_only_set h0 h1
   have hcm := List.mem_of_find?_eq_some hc
   have hid : c.id = ch := by simpa using List.find?_some hc
   have hnone : (lookup s.chanOf r).isSome = false := by simp [h0]
@@ -501,11 +516,57 @@ def sCh : St := run sA [.chanInit 0, .chanInit 0]
     with a bad proof for channel 0 makes it the canonical channel although it is not open; the ack with a
     good proof for channel 1 — the first channel that could actually open — is then refused. -/
 theorem first_channel_only_counterexample :
-    (step sCh (.chanAck 0 false)).2 = .msg .ibc ∧
-    lookup (step sCh (.chanAck 0 false)).1.chanOf 0 = some 0 ∧
-    ((step sCh (.chanAck 0 false)).1.chans.map (·.isOpen)) = [false, false] ∧
-    (step (step sCh (.chanAck 0 false)).1 (.chanAck 1 true)).2 = .ante .chanExists := by decide
+    (step sCh (.chanAck 0 .ack false)).2 = .msg .ibc ∧
+    lookup (step sCh (.chanAck 0 .ack false)).1.chanOf 0 = some 0 ∧
+    ((step sCh (.chanAck 0 .ack false)).1.chans.map (·.isOpen)) = [false, false] ∧
+    (step (step sCh (.chanAck 0 .ack false)).1 (.chanAck 1 .ack true)).2 = .ante .chanExists := by decide
 
-example : (step sCh (.chanAck 0 true)).2 = .ok ∧ ((step sCh (.chanAck 0 true)).1.chans.map (·.isOpen)) = [true, false] := by decide
+/- Second way the full clause fails ("the FIRST transfer channel opened over the canonical client becomes the
+   canonical channel"): the decorator only handles `MsgChannelOpenAck` at the top level of a transaction.  The same
+   message inside `authz.MsgExec` (not in the nested-message filter either), and `MsgChannelOpenConfirm` (handshake
+   started from the rollapp side), open the channel without `Rollapp.ChannelId` being written. -/
+
+/-- **first_channel_only_seen_partial** — by the one route the decorator handles, with a verifying proof, the first
+    channel acknowledged over the canonical client of a rollapp without canonical channel becomes canonical -/
+theorem first_channel_only_seen_partial {s : St} {ch r : Nat} {c : Chan} (hc : s.chans.find? (·.id == ch) = some c)
+    (hr : lookup s.c2r c.client = some r) (h0 : lookup s.chanOf r = none) :
+    (chanAck s ch .ack true).2 = .ok ∧ lookup (chanAck s ch .ack true).1.chanOf r = some ch := by
+  have hnone : (lookup s.chanOf r).isSome = false := by simp [h0]
+  unfold chanAck
+  simp only [hc, hr, hnone]
+  refine ⟨by simp, ?_⟩
+  simp only [Bool.false_eq_true, if_false, if_true]
+  rw [lookup_append_single h0]
+  simp
+
+/-- what the code does on the two other routes: an existing channel opens (verifying proof), the canonical-channel
+    record of every rollapp stays as it was -/
+theorem unseen_route_opens_undesignated {s : St} {ch : Nat} {w : ChanRoute} {c : Chan} (hw : w ≠ .ack)
+    (hc : s.chans.find? (·.id == ch) = some c) :
+    (chanAck s ch w true).2 = .ok ∧ (chanAck s ch w true).1.chanOf = s.chanOf ∧
+    ∃ c' ∈ (chanAck s ch w true).1.chans, c'.id = ch ∧ c'.isOpen = true := by
+  have hcm := List.mem_of_find?_eq_some hc
+  have hid : c.id = ch := by simpa using List.find?_some hc
+  refine ⟨?_, chanAck_unseen_chanOf s ch w true hw, ?_⟩
+  · unfold chanAck; cases w <;> simp_all
+  · refine ⟨{ c with isOpen := true }, ?_, hid, rfl⟩
+    unfold chanAck
+    cases w with
+    | ack => exact absurd rfl hw
+    | nestedAck => simp only [hc, if_true, List.mem_map]; exact ⟨c, hcm, by simp [hid]⟩
+    | confirm => simp only [hc, if_true, List.mem_map]; exact ⟨c, hcm, by simp [hid]⟩
+
+/-- **first_channel_only_unseen_counterexample** (monitor `C09/first_channel_only/opened-channel-not-canonical`): channel 0
+    over the canonical client of rollapp 0 is opened by an ack nested in `authz.MsgExec` (resp. by a
+    `MsgChannelOpenConfirm`): it is open and rollapp 0 has no canonical channel; the later top-level ack of channel 1
+    makes channel 1 — not the first opened one — the canonical channel. -/
+theorem first_channel_only_unseen_counterexample : ∀ w ∈ [ChanRoute.nestedAck, ChanRoute.confirm],
+    (step sCh (.chanAck 0 w true)).2 = .ok ∧
+    ((step sCh (.chanAck 0 w true)).1.chans.map (·.isOpen)) = [true, false] ∧
+    lookup (step sCh (.chanAck 0 w true)).1.chanOf 0 = none ∧
+    (step (step sCh (.chanAck 0 w true)).1 (.chanAck 1 .ack true)).2 = .ok ∧
+    lookup (step (step sCh (.chanAck 0 w true)).1 (.chanAck 1 .ack true)).1.chanOf 0 = some 1 := by decide
+
+example : (step sCh (.chanAck 0 .ack true)).2 = .ok ∧ ((step sCh (.chanAck 0 .ack true)).1.chans.map (·.isOpen)) = [true, false] := by decide
 
 end DymVerif.Props.C09
